@@ -1,5 +1,522 @@
-/- C15 — property theorems (to be written). -/
-import SoundeventModel.Basic
+/-
+  C15 — Audio-derived arrays are sample-accurate and their axes tell the truth.
+  Property theorems only (helper lemmas live in Proofs/Lemmas/Audio.lean).
+-/
+import SoundeventModel.Audio
+import Proofs.Lemmas.Audio
 namespace SE.Proofs.C15
+open SE SE.Audio
+
+/-! ### load_clip -/
+
+/-- the offset is `⌊start·samplerate⌋` (as a natural number once the start is not negative) -/
+theorem C15_offset_is_floor (sr : Nat) (s : Rat) (h0 : 0 ≤ s) :
+    (((clipOffset sr s).toNat : Nat) : Rat) ≤ s * sr ∧ s * sr < ((clipOffset sr s).toNat : Rat) + 1 := by
+  have hsr : (0 : Rat) ≤ sr := by exact_mod_cast Nat.zero_le sr
+  have hnn : 0 ≤ clipOffset sr s := by
+    unfold clipOffset; rw [Rat.le_floor_iff]; simpa using mul_nonneg h0 hsr
+  have hc : (((clipOffset sr s).toNat : Nat) : Rat) = (clipOffset sr s : Rat) := by
+    have : ((clipOffset sr s).toNat : Int) = clipOffset sr s := Int.toNat_of_nonneg hnn
+    exact_mod_cast this
+  rw [hc]
+  refine ⟨Rat.floor_le _, ?_⟩
+  have := Rat.lt_floor_add_one (s * sr)
+  push_cast at this; exact this
+
+/-- `load_clip` succeeds exactly for a well-formed clip that starts inside the file (or at its
+    very end): in particular the coordinate/data length conflict (`shape`) can never occur -/
+theorem C15_clip_loads (file : List Frame) (ch sr : Nat) (s e : Rat) :
+    (∃ a, loadClip file ch sr s e = .ok a) ↔
+      (s ≤ e ∧ 0 < sr ∧ 0 ≤ s ∧ s * sr < (file.length : Rat) + 1) := by
+  rw [loadClip_normal]
+  by_cases h1 : e < s
+  · simp [h1]
+  by_cases h2 : sr = 0
+  · simp [h1, h2]
+  have hsr : (0 : Rat) < sr := by exact_mod_cast Nat.pos_of_ne_zero h2
+  have ha : clipOffset sr s < 0 ↔ s < 0 := by
+    unfold clipOffset
+    rw [Rat.floor_lt_iff]
+    constructor
+    · intro h; by_contra hs; rw [not_lt] at hs
+      have := mul_nonneg hs hsr.le; simp at h; linarith
+    · intro h; simpa using mul_neg_of_neg_of_pos h hsr
+  have hb : (file.length : Int) < clipOffset sr s ↔ (file.length : Rat) + 1 ≤ s * sr := by
+    unfold clipOffset
+    rw [show ((file.length : Int) < (s * sr).floor) ↔ ((file.length : Int) + 1 ≤ (s * sr).floor) from Iff.rfl,
+      Rat.le_floor_iff]
+    push_cast; rfl
+  by_cases h3 : clipOffset sr s < 0 ∨ (file.length : Int) < clipOffset sr s
+  · simp only [h1, h2, h3, if_true, if_false]
+    simp only [reduceCtorEq, exists_false, false_iff, not_and, not_lt]
+    intro _ _ h0
+    rcases h3 with h3 | h3
+    · exact absurd (ha.mp h3) (not_lt.mpr h0)
+    · exact hb.mp h3
+  · simp only [h1, h2, h3, if_false]
+    rw [not_or, not_lt, not_lt] at h3
+    refine ⟨fun _ => ⟨not_lt.mp h1, Nat.pos_of_ne_zero h2, ?_, ?_⟩, fun _ => ⟨_, rfl⟩⟩
+    · by_contra hs; exact absurd (ha.mpr (lt_of_not_ge hs)) (not_lt.mpr h3.1)
+    · by_contra hs; exact absurd (hb.mpr (not_lt.mp hs)) (not_lt.mpr h3.2)
+
+
+/-- exactly `⌊duration × samplerate⌋` frames, and as many time stamps -/
+theorem C15_clip_length (file : List Frame) (ch sr : Nat) (s e : Rat) (a : TimeArray)
+    (h : loadClip file ch sr s e = .ok a) :
+    a.times.length = a.frames.length ∧
+    (a.frames.length : Rat) ≤ (e - s) * sr ∧ (e - s) * sr < (a.frames.length : Rat) + 1 := by
+  obtain ⟨hse, _, _, _, rfl⟩ := loadClip_ok file ch sr s e a h
+  simp only [lattice_length, readFrames_length, true_and]
+  rw [toNat_cast_of_nonneg _ (clipCount_nonneg sr s e hse)]
+  refine ⟨Rat.floor_le _, ?_⟩
+  have := Rat.lt_floor_add_one ((e - s) * sr)
+  push_cast at this; exact this
+
+/-- frame `i` of the clip is frame `off + i` of the file, a zero frame past the end of the file -/
+theorem C15_clip_frames (file : List Frame) (ch sr : Nat) (s e : Rat) (a : TimeArray)
+    (h : loadClip file ch sr s e = .ok a) (i : Nat) (hi : i < a.frames.length) :
+    a.frames[i] = if h' : (clipOffset sr s).toNat + i < file.length
+                  then file[(clipOffset sr s).toNat + i] else zeroFrame ch := by
+  obtain ⟨_, _, _, _, rfl⟩ := loadClip_ok file ch sr s e a h
+  exact readFrames_getElem ..
+
+/-- frame `i` carries time `(off + i)/samplerate`; the axis advertises `1/samplerate` -/
+theorem C15_clip_times (file : List Frame) (ch sr : Nat) (s e : Rat) (a : TimeArray)
+    (h : loadClip file ch sr s e = .ok a) :
+    a.step = 1 / sr ∧
+    ∀ i (hi : i < a.times.length), a.times[i] = (((clipOffset sr s).toNat + i : Nat) : Rat) / sr := by
+  obtain ⟨_, _, h0, _, rfl⟩ := loadClip_ok file ch sr s e a h
+  refine ⟨rfl, fun i hi => ?_⟩
+  simp only [lattice_getElem]
+  push_cast
+  rw [toNat_cast_of_nonneg _ h0]
+  ring
+
+/-- the axis starts on the sample boundary at or just before the requested start -/
+theorem C15_clip_start_snapped (file : List Frame) (ch sr : Nat) (s e : Rat) (a : TimeArray)
+    (h : loadClip file ch sr s e = .ok a) (h0 : 0 < a.times.length) :
+    a.times[0] ≤ s ∧ s - (1 : Rat) / (sr : Rat) < a.times[0] := by
+  obtain ⟨_, hsr, hnn, _, rfl⟩ := loadClip_ok file ch sr s e a h
+  have hsr' : (0 : Rat) < sr := by exact_mod_cast hsr
+  simp only [lattice_getElem]
+  have h1 := Rat.floor_le (s * sr)
+  have h2 := Rat.lt_floor_add_one (s * sr)
+  push_cast at h2
+  unfold clipOffset
+  constructor
+  · rw [show ((0 : Nat) : Rat) * (1 / (sr : Rat)) = 0 by simp, add_zero, div_le_iff₀ hsr']; exact h1
+  · rw [show ((0 : Nat) : Rat) * (1 / (sr : Rat)) = 0 by simp, add_zero, lt_div_iff₀ hsr']
+    have : (s - 1 / (sr : Rat)) * sr = s * sr - 1 := by field_simp
+    rw [this]; linarith
+
+/-! ### load_recording, and the clip as a window into it -/
+
+/-- `load_recording` succeeds with all `N` frames on the axis `j/samplerate` whenever
+    `duration × samplerate` is within half a sample of `N` (the trailing-point rule absorbs the
+    rounding of a stored float duration) -/
+theorem C15_recording_loads (file : List Frame) (sr : Nat) (d : Rat) (hsr : 0 < sr)
+    (h1 : (file.length : Rat) - 1 / 2 < d * sr) (h2 : d * sr ≤ (file.length : Rat) + 1 / 2) :
+    loadRecording file sr d = .ok ⟨file, lattice 0 (1 / sr) file.length, 1 / sr⟩ := by
+  have hsr' : (0 : Rat) < sr := by exact_mod_cast hsr
+  have hq : (d - 0) / (1 / (sr : Rat)) = d * sr := by rw [sub_zero]; field_simp
+  have hr := rangeDim_of_round 0 d (1 / sr) file.length (one_div_pos.mpr hsr')
+    (by rw [hq]; exact h1) (by rw [hq]; exact h2)
+  unfold loadRecording
+  rw [hr]
+  simp [Nat.ne_of_gt hsr, lattice_length]
+
+/-- … in particular for the recording `Recording.from_file` builds for that file, for every
+    time-expansion factor that keeps the samplerate whole -/
+theorem C15_recording_of_file (file : List Frame) (fsr : Nat) (te : Rat) (hf : 0 < fsr) (hte : 0 < te)
+    (hint : ∃ m : Nat, (fsr : Rat) * te = m) :
+    loadRecording file (recordingOf file.length fsr te).1 (recordingOf file.length fsr te).2 =
+      .ok ⟨file, lattice 0 (1 / ((fsr : Rat) * te)) file.length, 1 / ((fsr : Rat) * te)⟩ := by
+  obtain ⟨m, hm⟩ := hint
+  have hf' : (0 : Rat) < fsr := by exact_mod_cast hf
+  have hmpos : (0 : Rat) < m := by rw [← hm]; positivity
+  have hsr : (recordingOf file.length fsr te).1 = m := by
+    simp only [recordingOf, hm]
+    rw [truncZ_of_nonneg _ hmpos.le]
+    have : ((m : Nat) : Rat) = ((m : Int) : Rat) := by push_cast; rfl
+    rw [this, Rat.floor_intCast]; simp
+  have hd : (recordingOf file.length fsr te).2 * (m : Rat) = file.length := by
+    simp only [recordingOf]; rw [← hm]; field_simp
+  rw [hsr, hm]
+  exact C15_recording_loads file m (recordingOf file.length fsr te).2 (by exact_mod_cast hmpos)
+    (by rw [hd]; linarith) (by rw [hd]; linarith)
+
+/-- frame `i` of the clip and its time stamp are those of index `off + i` of the loaded recording -/
+theorem C15_clip_agrees_with_recording (file : List Frame) (ch sr : Nat) (s e d : Rat)
+    (c r : TimeArray) (hc : loadClip file ch sr s e = .ok c) (hr : loadRecording file sr d = .ok r)
+    (i : Nat) (hi : i < c.frames.length) (hin : (clipOffset sr s).toNat + i < file.length) :
+    ∃ (h1 : (clipOffset sr s).toNat + i < r.frames.length)
+      (h2 : (clipOffset sr s).toNat + i < r.times.length) (h3 : i < c.times.length),
+      c.frames[i] = r.frames[(clipOffset sr s).toNat + i] ∧
+      c.times[i] = r.times[(clipOffset sr s).toNat + i] := by
+  have hlen := (C15_clip_length file ch sr s e c hc).1
+  have hf := C15_clip_frames file ch sr s e c hc i hi
+  have ht := (C15_clip_times file ch sr s e c hc).2 i (by omega)
+  obtain ⟨_, rfl⟩ := loadRecording_ok file sr d r hr
+  refine ⟨hin, by simpa [lattice_length] using hin, by omega, ?_, ?_⟩
+  · rw [hf, dif_pos hin]
+  · rw [ht]; simp only [lattice_getElem]; ring
+
+/-! ### time expansion -/
+
+/-- Time expansion enters only through the recording's own samplerate: loading the clip `[s, e]`
+    of a recording at `fsr·te` Hz (file rate `fsr`, factor `te`) reads exactly the frames of the
+    clip `[s·te, e·te]` of the unexpanded file, with every time stamp and the step divided by
+    `te` (errors coincide too). -/
+theorem C15_time_expansion (file : List Frame) (ch fsr sr : Nat) (te s e : Rat) (hte : 0 < te)
+    (hf : 0 < fsr) (hsr : (fsr : Rat) * te = sr) :
+    loadClip file ch sr s e = (loadClip file ch fsr (s * te) (e * te)).map (scaleTime te) := by
+  have hf' : (0 : Rat) < fsr := by exact_mod_cast hf
+  have hsr' : (0 : Rat) < sr := by rw [← hsr]; positivity
+  have hsr0 : sr ≠ 0 := by intro h; rw [h] at hsr'; simp at hsr'
+  have hoff : clipOffset sr s = clipOffset fsr (s * te) := by
+    unfold clipOffset; rw [← hsr]; congr 1; ring
+  have hcnt : clipCount sr s e = clipCount fsr (s * te) (e * te) := by
+    unfold clipCount; rw [← hsr]; congr 1; ring
+  have hlt : e * te < s * te ↔ e < s := by
+    constructor
+    · intro h; exact lt_of_mul_lt_mul_right h hte.le
+    · intro h; exact mul_lt_mul_of_pos_right h hte
+  rw [loadClip_normal, loadClip_normal]
+  simp only [hlt, ← hoff, ← hcnt]
+  by_cases h1 : e < s
+  · simp [h1, Except.map]
+  by_cases h3 : clipOffset sr s < 0 ∨ (file.length : Int) < clipOffset sr s
+  · simp [h1, hsr0, Nat.ne_of_gt hf, h3, Except.map]
+  simp only [h1, hsr0, Nat.ne_of_gt hf, h3, if_false, Except.map, scaleTime]
+  congr 2
+  · simp only [lattice, List.map_map]
+    apply List.map_congr_left
+    intro i _
+    simp only [Function.comp]
+    rw [← hsr]; field_simp
+  · rw [← hsr]; field_simp
+
+/-! ### resample -/
+
+/-- the resampled axis has `⌊n·target·step⌋` points and advertises `1/target` -/
+theorem C15_resample_length (n : Nat) (t0 t1 step : Rat) (target : Nat) (a : Axis)
+    (h : resampleAxis n t0 t1 step target = .ok a) (hstep : 0 < step) :
+    a.step = 1 / (target : Rat) ∧ 0 < a.coords.length ∧
+    (a.coords.length : Rat) ≤ n * target * step ∧ (n : Rat) * target * step < (a.coords.length : Rat) + 1 := by
+  obtain ⟨_, hnum, rfl⟩ := resampleAxis_ok n t0 t1 step target a h
+  have hq : (0 : Rat) ≤ (n : Rat) * ((target : Rat) * step) := by positivity
+  have hb := truncZ_le_self_of_nonneg _ hq
+  simp only [List.length_map, List.length_range, true_and]
+  rw [toNat_cast_of_nonneg _ hnum.le]
+  refine ⟨by omega, ?_, ?_⟩
+  · rw [mul_assoc]; exact hb.1
+  · rw [mul_assoc]; exact hb.2
+
+/-- every resampled coordinate lies within one advertised step of `first + k/target`
+    (the drift is `k·frac(n·target·step)/(num·target)`, and `k < num`) -/
+theorem C15_resample_within_one_step (n : Nat) (t0 t1 step : Rat) (target : Nat) (a : Axis)
+    (h : resampleAxis n t0 t1 step target = .ok a) (hstep : 0 < step) (hdt : t1 - t0 = step)
+    (k : Nat) (hk : k < a.coords.length) :
+    |a.coords[k] - (t0 + (k : Rat) / (target : Rat))| < 1 / (target : Rat) := by
+  obtain ⟨_, hnum, rfl⟩ := resampleAxis_ok n t0 t1 step target a h
+  simp only [List.length_map, List.length_range] at hk
+  simp only [List.getElem_map, List.getElem_range]
+  set num := truncZ ((n : Rat) * ((target : Rat) * step)) with hnumdef
+  have hq : (0 : Rat) ≤ (n : Rat) * ((target : Rat) * step) := by positivity
+  have hb := truncZ_le_self_of_nonneg _ hq
+  rw [← hnumdef] at hb
+  have hnumQ : (0 : Rat) < (num : Rat) := by exact_mod_cast hnum
+  have hkQ : (k : Rat) < (num : Rat) := by
+    have : (k : Int) < num := by omega
+    exact_mod_cast this
+  have htpos : (0 : Rat) < (target : Rat) := by
+    rcases Nat.eq_zero_or_pos target with h0 | h0
+    · exfalso; rw [h0] at hb; simp at hb; linarith [hb.1]
+    · exact_mod_cast h0
+  have hk0 : (0 : Rat) ≤ (k : Rat) := by positivity
+  -- drift = k·(r − num)/(num·target), 0 ≤ r − num < 1
+  have hd : t0 + (t1 - t0) * ((n : Rat) / (num : Rat)) * (k : Rat) - (t0 + (k : Rat) / (target : Rat))
+      = (k : Rat) * ((n : Rat) * ((target : Rat) * step) - (num : Rat)) / ((num : Rat) * (target : Rat)) := by
+    rw [hdt]; field_simp; ring
+  rw [hd, abs_lt]
+  have hfr0 : 0 ≤ (n : Rat) * ((target : Rat) * step) - (num : Rat) := by linarith [hb.1]
+  have hfr1 : (n : Rat) * ((target : Rat) * step) - (num : Rat) < 1 := by linarith [hb.2]
+  have hden : (0 : Rat) < (num : Rat) * (target : Rat) := by positivity
+  constructor
+  · have : 0 ≤ (k : Rat) * ((n : Rat) * ((target : Rat) * step) - (num : Rat)) / ((num : Rat) * (target : Rat)) :=
+      div_nonneg (mul_nonneg hk0 hfr0) hden.le
+    have : -(1 / (target : Rat)) < 0 := by simp [htpos]
+    linarith
+  · rw [div_lt_div_iff₀ hden htpos]
+    have : (k : Rat) * ((n : Rat) * ((target : Rat) * step) - (num : Rat)) < (num : Rat) := by
+      calc (k : Rat) * ((n : Rat) * ((target : Rat) * step) - (num : Rat)) ≤ (k : Rat) * 1 :=
+            mul_le_mul_of_nonneg_left hfr1.le hk0
+        _ < num := by simpa using hkQ
+    nlinarith
+
+/-! ### compute_spectrogram -/
+
+/-- (repaired code, fix C15-1) the spectrogram's time coordinates are exactly
+    `first + k·step` for the advertised step, whenever the window is no longer than the audio -/
+theorem C15_stft_step_truthful (len : Nat) (t0 step w h : Rat) (a : SpecAxes)
+    (hok : stftAxes len t0 step w h = .ok a) (hfit : a.nperseg ≤ (len : Int))
+    (k : Nat) (hk : k < a.time.coords.length) :
+    a.time.coords[k] = t0 + (k : Rat) * a.time.step := by
+  obtain ⟨_, _, _, rfl⟩ := stftAxesGen_ok false len t0 step w h a hok
+  simp only at hfit
+  simp only [stftTimes_getElem, min_eq_left hfit, Bool.false_eq_true, if_false]
+  push_cast; field_simp
+
+/-- the frequency coordinates are exactly `k·step` for the advertised step `samplerate/nperseg` -/
+theorem C15_stft_freq_truthful (len : Nat) (t0 step w h : Rat) (a : SpecAxes)
+    (hok : stftAxes len t0 step w h = .ok a) (hfit : a.nperseg ≤ (len : Int))
+    (k : Nat) (hk : k < a.freq.coords.length) :
+    a.freq.coords[k] = (k : Rat) * a.freq.step ∧ a.freq.coords.length = (a.nperseg / 2 + 1).toNat := by
+  obtain ⟨_, _, _, rfl⟩ := stftAxesGen_ok false len t0 step w h a hok
+  simp only at hfit
+  simp only [stftFreqs_getElem, min_eq_left hfit, true_and]
+  simp [stftFreqs]
+
+/-- the advertised (realised) hop differs from the requested hop by less than one sample period,
+    and `nperseg`, `noverlap` are the truncations the code computes -/
+theorem C15_stft_hop_within_one_sample (len : Nat) (t0 step w h : Rat) (a : SpecAxes)
+    (hok : stftAxes len t0 step w h = .ok a) (hstep : 0 < step) (hh : h ≤ w) :
+    |a.time.step - h| < step ∧
+    (a.nperseg : Rat) ≤ w / step ∧ w / step < (a.nperseg : Rat) + 1 ∧
+    (a.noverlap : Rat) ≤ (w - h) / step ∧ (w - h) / step < (a.noverlap : Rat) + 1 := by
+  obtain ⟨_, hn1, _, rfl⟩ := stftAxesGen_ok false len t0 step w h a hok
+  simp only [Bool.false_eq_true, if_false]
+  have hw0 : 0 ≤ w * (1 / step) := by
+    by_contra hneg
+    have hlt : w * (1 / step) < 0 := lt_of_not_ge hneg
+    have := (truncZ_near (w * (1 / step))).2
+    have h1 : ((stftNperseg step w : Int) : Rat) < 1 := by unfold stftNperseg; linarith
+    have : (1 : Rat) ≤ (stftNperseg step w : Rat) := by exact_mod_cast hn1
+    linarith
+  have hwh0 : 0 ≤ (w - h) * (1 / step) := mul_nonneg (by linarith) (one_div_pos.mpr hstep).le
+  have b1 := truncZ_le_self_of_nonneg _ hw0
+  have b2 := truncZ_le_self_of_nonneg _ hwh0
+  have e1 : w * (1 / step) = w / step := by ring
+  have e2 : (w - h) * (1 / step) = (w - h) / step := by ring
+  unfold stftNperseg stftNoverlap
+  rw [e1] at b1 ⊢; rw [e2] at b2 ⊢
+  refine ⟨?_, b1.1, b1.2, b2.1, b2.2⟩
+  have hd : (((truncZ (w / step) - truncZ ((w - h) / step) : Int) : Rat)) / (1 / step) - h
+      = (((truncZ (w / step) : Rat) - w / step) - ((truncZ ((w - h) / step) : Rat) - (w - h) / step)) * step := by
+    push_cast; field_simp; ring
+  rw [hd, abs_lt]
+  constructor <;> nlinarith [b1.1, b1.2, b2.1, b2.2]
+
+/-- (pinned code) `compute_spectrogram(window 0.01, hop 0.0033)` of one second at 8 kHz: the
+    advertised step is the requested 0.0033 s while the realised hop is 27 samples = 0.003375 s;
+    coordinate 44 is already a whole advertised step away from `first + 44·step` (the last one,
+    index 297, 6.75 steps): the monitored statement `axisOk` is false, the axis does not tell the
+    truth. -/
+theorem C15_stft_step_pinned_untruthful :
+    (stftAxesPinned 8000 0 (1 / 8000) (1 / 100) (33 / 10000)).toOption.map
+        (fun a => (a.time.step, a.time.coords[1]?, a.time.coords[44]?, a.time.coords.length, axisOk 0 a.time))
+      = some (33 / 10000, some (27 / 8000), some (44 * (33 / 10000) + 33 / 10000), 298, false) := by
+  decide +kernel
+
+/-- the same request on the repaired code: advertised step = realised hop, truthful axes -/
+example :
+    (stftAxes 8000 0 (1 / 8000) (1 / 100) (33 / 10000)).toOption.map
+        (fun a => (a.nperseg, a.noverlap, a.time.step, a.time.coords.length, axisOk 0 a.time, axisOk 0 a.freq))
+      = some (80, 53, 27 / 8000, 298, true, true) := by
+  decide +kernel
+
+/-! ### the monitor -/
+
+/-- meaning of the executable statement the harness evaluates on the implementation's axes:
+    strictly increasing, starts at `first`, every coordinate within one advertised step of
+    `first + i·step` -/
+theorem C15_monitor_meaning (first : Rat) (a : Axis) :
+    axisOk first a = true ↔
+      (∀ i (h : i + 1 < a.coords.length), a.coords[i] < a.coords[i + 1]) ∧
+      (∀ h : 0 < a.coords.length, a.coords[0] = first) ∧
+      (∀ i (h : i < a.coords.length), |a.coords[i] - (first + (i : Rat) * a.step)| < a.step) := by
+  rw [axisOk_iff]
+  simp only [abs_lt]
+
+/-- the monitor holds on the time axis of every loaded clip (source start = the snapped start) -/
+theorem C15_axis_ok_clip (file : List Frame) (ch sr : Nat) (s e : Rat) (a : TimeArray)
+    (h : loadClip file ch sr s e = .ok a) :
+    axisOk ((clipOffset sr s : Rat) / sr) ⟨a.times, a.step⟩ = true := by
+  obtain ⟨_, hsr, _, _, rfl⟩ := loadClip_ok file ch sr s e a h
+  have hsr' : (0 : Rat) < sr := by exact_mod_cast hsr
+  exact axisOk_lattice _ _ _ (one_div_pos.mpr hsr')
+
+/-- … of every loaded recording (source start = 0) -/
+theorem C15_axis_ok_recording (file : List Frame) (sr : Nat) (d : Rat) (a : TimeArray)
+    (h : loadRecording file sr d = .ok a) : axisOk 0 ⟨a.times, a.step⟩ = true := by
+  obtain ⟨hsr, rfl⟩ := loadRecording_ok file sr d a h
+  have hsr' : (0 : Rat) < sr := by exact_mod_cast hsr
+  exact axisOk_lattice _ _ _ (one_div_pos.mpr hsr')
+
+/-- … of every resampled array whose input axis was truthful (source start = the input's first
+    coordinate) -/
+theorem C15_axis_ok_resample (n : Nat) (t0 t1 step : Rat) (target : Nat) (a : Axis)
+    (h : resampleAxis n t0 t1 step target = .ok a) (hstep : 0 < step) (hdt : t1 - t0 = step) :
+    axisOk t0 a = true := by
+  rw [C15_monitor_meaning]
+  have hw := C15_resample_within_one_step n t0 t1 step target a h hstep hdt
+  obtain ⟨_, hnum, ha⟩ := resampleAxis_ok n t0 t1 step target a h
+  have hnumQ : (0 : Rat) < (truncZ ((n : Rat) * ((target : Rat) * step)) : Rat) := by exact_mod_cast hnum
+  refine ⟨?_, ?_, ?_⟩
+  · intro i hi
+    subst ha
+    simp only [List.getElem_map, List.getElem_range]
+    have hd : 0 < (t1 - t0) * ((n : Rat) / (truncZ ((n : Rat) * ((target : Rat) * step)) : Rat)) := by
+      rw [hdt]; apply mul_pos hstep; apply div_pos _ hnumQ
+      have : 2 ≤ n := (resampleAxis_ok n t0 t1 step target _ h).1
+      exact_mod_cast (by omega : 0 < n)
+    push_cast; nlinarith
+  · intro h0; subst ha; simp
+  · intro i hi
+    have := hw i hi
+    have hs : a.step = 1 / (target : Rat) := by subst ha; rfl
+    rw [hs]
+    have e : (i : Rat) * (1 / (target : Rat)) = (i : Rat) / (target : Rat) := by ring
+    rw [e]; exact this
+
+/-- … and (repaired code) of both axes of every spectrogram whose window fits the audio -/
+theorem C15_axis_ok_stft (len : Nat) (t0 step w h : Rat) (a : SpecAxes)
+    (hok : stftAxes len t0 step w h = .ok a) (hstep : 0 < step) (hfit : a.nperseg ≤ (len : Int)) :
+    axisOk t0 a.time = true ∧ axisOk 0 a.freq = true := by
+  have ht := C15_stft_step_truthful len t0 step w h a hok hfit
+  have hf := C15_stft_freq_truthful len t0 step w h a hok hfit
+  obtain ⟨_, hn1, hov, ha⟩ := stftAxesGen_ok false len t0 step w h a hok
+  have hnp : a.nperseg = stftNperseg step w := by rw [ha]
+  rw [hnp] at hfit
+  rw [min_eq_left hfit] at hov
+  have hts : 0 < a.time.step := by
+    rw [ha]; simp only [Bool.false_eq_true, if_false]
+    apply div_pos _ (one_div_pos.mpr hstep)
+    exact_mod_cast (by omega : (0 : Int) < stftNperseg step w - stftNoverlap step w h)
+  have hfs : 0 < a.freq.step := by
+    rw [ha]; simp only
+    apply div_pos (one_div_pos.mpr hstep)
+    exact_mod_cast (by omega : (0 : Int) < stftNperseg step w)
+  constructor
+  · rw [C15_monitor_meaning]
+    refine ⟨fun i hi => ?_, fun h0 => ?_, fun i hi => ?_⟩
+    · rw [ht i (by omega), ht (i + 1) hi]; push_cast; nlinarith
+    · rw [ht 0 h0]; simp
+    · rw [ht i hi]; simpa using hts
+  · rw [C15_monitor_meaning]
+    refine ⟨fun i hi => ?_, fun h0 => ?_, fun i hi => ?_⟩
+    · rw [(hf i (by omega)).1, (hf (i + 1) hi).1]; push_cast; nlinarith
+    · rw [(hf 0 h0).1]; simp
+    · rw [(hf i hi).1]; simpa using hfs
+
+/-- Every axis is strictly increasing and starts at its source's start: the snapped clip start,
+    0 for a recording, the input's first coordinate for `resample` and `compute_spectrogram`,
+    0 Hz for the frequency axis. -/
+theorem C15_axes_increasing :
+    (∀ (file : List Frame) (ch sr : Nat) (s e : Rat) (a : TimeArray), loadClip file ch sr s e = .ok a →
+      (∀ i (h : i + 1 < a.times.length), a.times[i] < a.times[i + 1]) ∧
+      (∀ h : 0 < a.times.length, a.times[0] = (clipOffset sr s : Rat) / sr)) ∧
+    (∀ (file : List Frame) (sr : Nat) (d : Rat) (a : TimeArray), loadRecording file sr d = .ok a →
+      (∀ i (h : i + 1 < a.times.length), a.times[i] < a.times[i + 1]) ∧
+      (∀ h : 0 < a.times.length, a.times[0] = 0)) ∧
+    (∀ (n : Nat) (t0 t1 step : Rat) (target : Nat) (a : Axis), resampleAxis n t0 t1 step target = .ok a →
+      0 < step → t1 - t0 = step →
+      (∀ i (h : i + 1 < a.coords.length), a.coords[i] < a.coords[i + 1]) ∧
+      (∀ h : 0 < a.coords.length, a.coords[0] = t0)) ∧
+    (∀ (len : Nat) (t0 step w h : Rat) (a : SpecAxes), stftAxes len t0 step w h = .ok a →
+      0 < step → a.nperseg ≤ (len : Int) →
+      (∀ i (h : i + 1 < a.time.coords.length), a.time.coords[i] < a.time.coords[i + 1]) ∧
+      (∀ h : 0 < a.time.coords.length, a.time.coords[0] = t0) ∧
+      (∀ i (h : i + 1 < a.freq.coords.length), a.freq.coords[i] < a.freq.coords[i + 1]) ∧
+      (∀ h : 0 < a.freq.coords.length, a.freq.coords[0] = 0)) := by
+  refine ⟨fun file ch sr s e a h => ?_, fun file sr d a h => ?_, fun n t0 t1 step target a h hs hd => ?_,
+    fun len t0 step w h a hok hs hfit => ?_⟩
+  · have := (C15_monitor_meaning _ _).mp (C15_axis_ok_clip file ch sr s e a h)
+    exact ⟨this.1, this.2.1⟩
+  · have := (C15_monitor_meaning _ _).mp (C15_axis_ok_recording file sr d a h)
+    exact ⟨this.1, this.2.1⟩
+  · have := (C15_monitor_meaning _ _).mp (C15_axis_ok_resample n t0 t1 step target a h hs hd)
+    exact ⟨this.1, this.2.1⟩
+  · have := C15_axis_ok_stft len t0 step w h a hok hs hfit
+    have h1 := (C15_monitor_meaning _ _).mp this.1
+    have h2 := (C15_monitor_meaning _ _).mp this.2
+    exact ⟨h1.1, h1.2.1, h2.1, h2.2.1⟩
+
+/-! ### further consequences, non-vacuity -/
+
+/-- the clip stays inside the requested interval at its end as well: the sample after the last
+    one starts no later than `e`, and fewer than two sample periods are lost -/
+theorem C15_clip_end (file : List Frame) (ch sr : Nat) (s e : Rat) (a : TimeArray)
+    (h : loadClip file ch sr s e = .ok a) :
+    ((clipOffset sr s : Rat) + a.frames.length) / sr ≤ e ∧
+    e - 2 / (sr : Rat) < ((clipOffset sr s : Rat) + a.frames.length) / sr := by
+  have hl := C15_clip_length file ch sr s e a h
+  obtain ⟨_, hsr, _, _, _⟩ := loadClip_ok file ch sr s e a h
+  have hsr' : (0 : Rat) < sr := by exact_mod_cast hsr
+  have h1 := Rat.floor_le (s * sr)
+  have h2 := Rat.lt_floor_add_one (s * sr)
+  push_cast at h2
+  unfold clipOffset
+  constructor
+  · rw [div_le_iff₀ hsr']; nlinarith [hl.2.1]
+  · rw [lt_div_iff₀ hsr']
+    have : (e - 2 / (sr : Rat)) * sr = e * sr - 2 := by field_simp
+    rw [this]; nlinarith [hl.2.2]
+
+/-- the resampled axis spans exactly the input's span: `num` realised steps = `n` input steps -/
+theorem C15_resample_span (n : Nat) (t0 t1 step : Rat) (target : Nat) (a : Axis)
+    (h : resampleAxis n t0 t1 step target = .ok a) (k : Nat) (hk : k < a.coords.length) :
+    a.coords[k] = t0 + (k : Rat) * ((n : Rat) * (t1 - t0) / (a.coords.length : Rat)) := by
+  obtain ⟨_, hnum, rfl⟩ := resampleAxis_ok n t0 t1 step target a h
+  simp only [List.length_map, List.length_range, List.getElem_map, List.getElem_range]
+  rw [toNat_cast_of_nonneg _ hnum.le]
+  ring
+
+-- non-vacuity ---------------------------------------------------------------------------------
+-- `demoFile`: a 6-frame stereo file, loaded at 4 Hz
+
+-- off both sample boundaries and past the end of file: offset ⌊0.625·4⌋ = 2, ⌊1.5·4⌋ = 6 frames
+example : loadClip demoFile 2 4 (5 / 8) (17 / 8) =
+    .ok ⟨[[3, -3], [4, -4], [5, -5], [6, -6], [0, 0], [0, 0]], [1 / 2, 3 / 4, 1, 5 / 4, 3 / 2, 7 / 4], 1 / 4⟩ := by
+  decide +kernel
+-- zero-length and sub-sample clips load as empty arrays (with the guard of C16-1) …
+example : loadClip demoFile 2 4 (1 / 2) (1 / 2) = .ok ⟨[], [], 1 / 4⟩ := by decide +kernel
+example : loadClip demoFile 2 4 (1 / 2) (5 / 8) = .ok ⟨[], [], 1 / 4⟩ := by decide +kernel
+-- … while the pinned `create_range_dim` raises `IndexError` on the empty range
+example : rangeDimPinned (1 / 2) (1 / 2) (1 / 4) = .error .index := by decide +kernel
+-- starting exactly at the end of file is fine (all zeros), beyond it libsndfile cannot seek
+example : loadClip demoFile 2 4 (3 / 2) 2 = .ok ⟨[[0, 0], [0, 0]], [3 / 2, 7 / 4], 1 / 4⟩ := by decide +kernel
+example : loadClip demoFile 2 4 (7 / 4) 2 = .error .seek := by decide +kernel
+example : loadClip demoFile 2 4 (-1 / 8) 2 = .error .seek := by decide +kernel
+example : loadClip demoFile 2 4 1 (1 / 2) = .error .clip := by decide +kernel
+-- the recording: 6 frames, duration 1.5 s (also when the stored duration is a little off)
+example : loadRecording demoFile 4 (3 / 2) = .ok ⟨demoFile, [0, 1 / 4, 1 / 2, 3 / 4, 1, 5 / 4], 1 / 4⟩ := by decide +kernel
+example : loadRecording demoFile 4 (3 / 2 + 1 / 10) = .ok ⟨demoFile, [0, 1 / 4, 1 / 2, 3 / 4, 1, 5 / 4], 1 / 4⟩ := by decide +kernel
+example : loadRecording demoFile 4 (7 / 4) = .error .shape := by decide +kernel
+example : recordingOf 6 2 2 = (4, 3 / 2) := by decide +kernel
+-- time expansion: file rate 2 Hz, factor 2 (hypotheses of `C15_time_expansion` hold: 2·2 = 4)
+example : loadClip demoFile 2 4 (5 / 8) (17 / 8) = (loadClip demoFile 2 2 (5 / 4) (17 / 4)).map (scaleTime 2) := by
+  decide +kernel
+-- resample: 16 samples at 1/16 s to 6 Hz gives ⌊16·6/16⌋ = 6 exact points; to 7 Hz gives 7 points
+-- spaced 1/7 … and 100 samples at 1/8192 s to 1355 Hz gives 16 points whose spacing is not 1/1355
+example : resampleAxis 16 1 (17 / 16) (1 / 16) 6 = .ok ⟨[1, 7 / 6, 4 / 3, 3 / 2, 5 / 3, 11 / 6], 1 / 6⟩ := by
+  decide +kernel
+example : (resampleAxis 100 0 (1 / 8192) (1 / 8192) 1355).toOption.map
+    (fun a => (a.coords.length, a.coords[1]?, a.step, axisOk 0 a)) =
+    some (16, some (25 / 32768), 1 / 1355, true) := by decide +kernel
+example : resampleAxis 5 0 (1 / 8192) (1 / 8192) 1000 = .error .zerodiv := by decide +kernel
+-- spectrogram: window and hop of 8.5 and 3.25 samples at 8 Hz: nperseg 8, noverlap ⌊5.25⌋ = 5
+example : (stftAxes 32 2 (1 / 8) (17 / 16) (13 / 32)).toOption.map
+    (fun a => (a.nperseg, a.noverlap, a.time.step, a.time.coords.take 3, a.time.coords.length)) =
+    some (8, 5, 3 / 8, [2, 19 / 8, 11 / 4], 12) := by decide +kernel
+example : (stftAxes 32 2 (1 / 8) (17 / 16) (13 / 32)).toOption.map
+    (fun a => (a.freq.step, a.freq.coords, axisOk 2 a.time, axisOk 0 a.freq)) =
+    some (1, [0, 1, 2, 3, 4], true, true) := by decide +kernel
+-- hop longer than the window: `int()` truncates the negative overlap toward zero
+example : (stftAxes 32 0 (1 / 8) (1 / 2) (11 / 16)).toOption.map (fun a => (a.nperseg, a.noverlap, a.time.step)) =
+    some (4, -1, 5 / 8) := by decide +kernel
+example : stftAxes 32 0 (1 / 8) (1 / 16) (1 / 32) = .error .value := by decide +kernel   -- window < 1 sample
+example : stftAxes 32 0 (1 / 8) (17 / 16) (1 / 64) = .error .value := by decide +kernel  -- noverlap = nperseg
+
 
 end SE.Proofs.C15
